@@ -40,7 +40,10 @@ def adrarg(i):
 
 def relarg(i):
     off = i.operands[0]
-    loc = i.address + i.length + off
+    _pc = i.address
+    if _pc is None:
+        _pc = op_ptr
+    loc = _pc + i.length + off
     return [(Token.Address, str(loc))]
 
 
